@@ -125,6 +125,8 @@ func compressors() []compCtor {
 		f, _ := flate.NewWriter(w, 6)
 		return noReset{f}
 	}})
+	// the constructor the package's own helper uses, as an application that wants "the defaults" does
+	out = append(out, compCtor{"DefaultHelper.Compressor", func(w io.Writer) wsflate.Compressor { return wsflate.DefaultHelper.Compressor(w) }})
 	return out
 }
 
@@ -432,6 +434,15 @@ func main() {
 										}
 										d := env.NewDst()
 										w.Reset(d)
+										// while this writer's second message is open, other connections compress as well: through
+										// the package's helper and through a writer of their own made by the same constructor
+										otherMsg := []byte("another connection's message, another connection's message")
+										if _, err := wsflate.DefaultHelper.Compress(otherMsg); err != nil {
+											return explore.Failf("harness-default-helper", "%v", err)
+										}
+										var ob bytes.Buffer
+										ow := wsflate.NewWriter(&ob, c.mk)
+										ow.Write(otherMsg[:20])
 										if style != "Write" {
 											if n, err := io.Copy(w, bytes.NewReader(second.data)); err != nil || int(n) != len(second.data) {
 												return explore.Failf("write-error-after-Reset", "io.Copy: n=%d err=%v", n, err)
@@ -449,6 +460,13 @@ func main() {
 											if err != nil {
 												return explore.Failf("ending-error-after-Reset:"+e2, "%v", err)
 											}
+										}
+										ow.Write(otherMsg[20:])
+										if err := ow.Flush(); err != nil {
+											return explore.Failf("other-connections-writer-fails", "%v", err)
+										}
+										if oo, _, err := refmodel.Inflate(append(append([]byte{}, ob.Bytes()...), tail...)); err != nil || !bytes.Equal(oo, otherMsg) {
+											return explore.Failf("other-connections-message-wrong", "%v: %q", err, oo)
 										}
 										full := append(append([]byte{}, d.Bytes()...), tail...)
 										out, _, err := refmodel.Inflate(full)
